@@ -6,21 +6,23 @@
                                                    unregisterAllOnServe refuseBlockingInTx dedupKeys drainAll
                                                    noticeBlockedHangup deferBatchWhenBlocked; resets the state
     reset                              -> ok
-    ev wakeups                         -> <A> <tags> <outs>
-    ev timeouts <now>                  -> <A> <tags> <outs>
-    ev hangup <c> | ev reap <c>        -> <A> <tags> <outs>
-    ev conn <c> <now> <cmd> ...        -> <A> <tags> <outs>
+    ev wakeups                         -> <A> <tags> <F> <ftags> <outs>
+    ev timeouts <now>                  -> <A> <tags> <F> <ftags> <outs>
+    ev hangup <c> | ev reap <c>        -> <A> <tags> <F> <ftags> <outs>
+    ev conn <c> <now> <cmd> ...        -> <A> <tags> <F> <ftags> <outs>
          cmd  = bpop:<L|R>:<k|k…>:<ms> | push:<L|R>:<k>:<v|v…> | pop:<L|R>:<k> | multi | exec
          A    = 1 iff the event satisfies `eventOk` in the state before it (the history stays `Allowed`)
          tags = which conjunct of `eventOk` failed, joined by `,` (`.` = none): multi-key multi-push
                 pop-while-wake exec-conn0 second-bpop hangup-blocked arity
+         F    = 1 iff the event satisfies `eventOkF` (the history stays `AllowedFixed`); ftags = which conjunct
+                failed: hangup-blocked second-bpop big-push
          outs = replies written by this event, `c:r` joined by `,` (`.` = none)
          r    = i<n> | b=<k>=<v> | n | p=<k>=<v> | na | ok | q | e | h<n>
     dump <c|c…> <k|k…>                 -> reg=… wq=… lists=… conns=… lost=<n> stranded=… leftover=… unreg=…
          reg      `k:c~dl+c~dl…` per key with waiters (first-appearance order; dl = deadline or inf) joined by `;`
          wq       `c@k` joined by `,`
          lists    `k:v|v…` for every asked key
-         conns    `c:<-|B/k|k…/<deadline|inf>/<L|R>><x if peer closed><g if gone><t if in MULTI>` for every asked conn
+         conns    `c:<-|B/k|k…/<deadline|inf>/<L|R>><d if frames are deferred><x if peer closed><g if gone><t if in MULTI>`
          stranded asked (conn@key) blocked on a non-empty key while the wake queue is empty (NoStrandedClient)
          leftover asked conns that are not blocked but named by the registry or the wake queue (NoLeftoverRegistration)
          unreg    asked conns that are blocked but in no queue while the wake queue is empty (RegistryIffBlocked, ←)
@@ -132,7 +134,7 @@ def showConn (s : State) (c : Conn) : String :=
         | none => "inf"
         | some d => toString d
       "B/" ++ hexList b.keys ++ "/" ++ dl ++ "/" ++ showOp b.op
-  s!"{c}:{b}" ++ (if cs.peerClosed then "x" else "") ++ (if cs.gone then "g" else "") ++ (if cs.inTx then "t" else "")
+  s!"{c}:{b}" ++ (if cs.pending.isEmpty then "" else "d") ++ (if cs.peerClosed then "x" else "") ++ (if cs.gone then "g" else "") ++ (if cs.inTx then "t" else "")
 
 def inLine (s : State) (c : Conn) : Bool :=
   s.registry.any (fun e => e.2.conn == c) || s.wakeQ.any (fun w => w.conn == c)
@@ -191,6 +193,40 @@ def eventTags (q : Quirks) (s : State) : Event → List String
   | .hangup c => if (s.conns c).blocked.isSome then ["hangup-blocked"] else []
   | _ => []
 
+/-! The same for `dataOkF` / `eventOkF`. -/
+
+def dataTagsF (q : Quirks) (s : State) (cid : Conn) : Cmd → List String
+  | .bpop _ _ _ => if cid != 0 && (s.conns cid).blocked.isSome then ["second-bpop"] else []
+  | .push _ _ vs => if !q.drainAll && vs.length > wakeBatch then ["big-push"] else []
+  | _ => []
+
+def dataSeqTagsF (q : Quirks) (now : Nat) (c cid : Conn) : State → List Cmd → List String
+  | _, [] => []
+  | s, cmd :: r => dataTagsF q s cid cmd ++ dataSeqTagsF q now c cid (dataCmd q now c cid s cmd) r
+
+def topTagsF (q : Quirks) (now : Nat) (c : Conn) (s : State) : Cmd → List String
+  | .multi => []
+  | .exec =>
+    if (s.conns c).inTx then
+      dataSeqTagsF q now c 0
+        (emit (setConn s c fun cs => { cs with inTx := false, queue := [] }) c (.arrHdr (s.conns c).queue.length))
+        (s.conns c).queue
+    else []
+  | cmd => if (s.conns c).inTx then [] else dataTagsF q s c cmd
+
+def topSeqTagsF (q : Quirks) (now : Nat) (c : Conn) : List Cmd → State → List String
+  | [], _ => []
+  | cmd :: r, s =>
+    topTagsF q now c s cmd ++
+      (if q.deferBatchWhenBlocked && ((topCmd q now c s cmd).conns c).blocked.isSome then []
+       else topSeqTagsF q now c r (topCmd q now c s cmd))
+
+def eventTagsF (q : Quirks) (s : State) : Event → List String
+  | .conn c now cmds =>
+    if canRun s c then topSeqTagsF q now c ((s.conns c).pending ++ cmds) (setConn s c fun cs => { cs with pending := [] }) else []
+  | .hangup c => if (s.conns c).blocked.isSome then ["hangup-blocked"] else []
+  | _ => []
+
 def step (ss : Sess) (ws : List String) : Sess × String :=
   match ws with
   | "cfg" :: flags =>
@@ -205,7 +241,9 @@ def step (ss : Sess) (ws : List String) : Sess × String :=
       let ok := eventOk ss.q ss.s e
       let s' := Blk.step ss.q ss.s e
       let newOut := s'.out.drop ss.s.out.length
-      ({ ss with s := s' }, (if ok then "1 " else "0 ") ++ joinOr "," (eventTags ss.q ss.s e).eraseDups ++ " " ++ showOuts newOut)
+      let okF := eventOkF ss.q ss.s e
+      ({ ss with s := s' }, (if ok then "1 " else "0 ") ++ joinOr "," (eventTags ss.q ss.s e).eraseDups ++ " " ++
+        (if okF then "1 " else "0 ") ++ joinOr "," (eventTagsF ss.q ss.s e).eraseDups ++ " " ++ showOuts newOut)
   | ["rnew"] => ({ ss with s := {} }, "ok")
   | ["rreg", c, o, ks, dl] =>
     match c.toNat?, readOp o, parseHexList ks, (match dl with | "inf" => some 0 | "past" => some 1 | "future" => some 1000000000 | _ => none) with
